@@ -6,7 +6,7 @@ from fractions import Fraction as F
 import numpy as np
 
 from harness.fieldp import red
-from harness.proxies import Tape, Boom, TapeMismatch, BOOMS
+from harness.proxies import Tape, Boom, TapeMismatch, BOOMS, carries_boom
 
 warnings.filterwarnings("ignore")
 
@@ -199,7 +199,10 @@ def run(sc, tape_mode="log", script=None, provider=None):
             except TapeMismatch:
                 raise
             except Exception as e:
-                outcome, exc = "err", "%s: %s" % (type(e).__name__, str(e)[:160])
+                if carries_boom(e):
+                    outcome = "exc"
+                else:
+                    outcome, exc = "err", "%s: %s" % (type(e).__name__, str(e)[:160])
             ev = st["events"]
             c = {"outcome": outcome, "exc": exc, "force": force, "upd": upd, "values_before": vb, "values": values_of(),
                  "nmodel": sum(1 for e in ev if e["k"] == "model"), "nloss": sum(1 for e in ev if e["k"] == "loss"),
